@@ -764,3 +764,93 @@ func decodeRetime(signed []byte, shift int64) ([]byte, error) {
 }
 
 var _ = version.VersionB1
+
+// TestTwoVerifiers: two independently signed bundles, one Verifier each, and
+// the client alternates VerifyExchange calls between them in a drawn order
+// (two objects of one type used alternately): every result must be that of its
+// own bundle, and stay intact afterwards.
+func TestTwoVerifiers(t *testing.T) {
+	rapid.Check(t, func(t *rapid.T) {
+		core.Run(t, "bsig/two-verifiers", func(c *core.Ctx) {
+			ws := []*world{buildWorld(c, 1650000000, false), buildWorld(c, 1650000000, false)}
+			var vs []*signature.Verifier
+			var bs []*bundle.Bundle
+			for i, w := range ws {
+				if w.hostOverlap() {
+					c.Outcome("skipped")
+					return
+				}
+				if err := w.sign(false); err != nil {
+					return
+				}
+				rb, err := readBundle(c, w.file, core.ReaderPlan{ErrAt: -1})
+				if err != nil {
+					return
+				}
+				tm, ok := w.commonInstant(c)
+				if !ok {
+					return
+				}
+				v, verr := signature.NewVerifier(rb.Signatures, tm, rb.Version)
+				if verr != nil {
+					if c.Oracle("C06") {
+						c.Violation("verifier-refused", "signature.NewVerifier", "honest signatures of bundle %d refused: %v", i, verr)
+					}
+					return
+				}
+				vs, bs = append(vs, v), append(bs, rb)
+			}
+			type item struct{ w, e int }
+			var items []item
+			for wi, b := range bs {
+				for ei := range b.Exchanges {
+					items = append(items, item{wi, ei})
+				}
+			}
+			type held struct {
+				got, want []byte
+				url       string
+			}
+			var helds []held
+			var sched []byte
+			for _, k := range c.Perm("order", len(items)) {
+				it := items[k]
+				w, e := ws[it.w], bs[it.w].Exchanges[it.e]
+				sched = append(sched, byte('A'+it.w))
+				var r *signature.VerifyExchangeResult
+				var verr error
+				if pi := c.Guard("Verifier.VerifyExchange", func() { r, verr = vs[it.w].VerifyExchange(e) }); pi != nil {
+					c.CheckTotal("Verifier.VerifyExchange", len(w.file), pi, 0)
+					continue
+				}
+				if !c.Oracle("C06") {
+					continue
+				}
+				u := e.Request.URL.String()
+				vo, covered := w.vouched[u]
+				switch {
+				case verr != nil:
+					c.Violation("exchange-refused", "Verifier.VerifyExchange", "honest exchange %q of bundle %c refused under schedule %s: %v", u, 'A'+it.w, sched, verr)
+				case r == nil && covered:
+					c.Violation("covered-reported-unsigned", "Verifier.VerifyExchange", "exchange %q of bundle %c reported unsigned under schedule %s", u, 'A'+it.w, sched)
+				case r != nil && !covered:
+					c.Violation("uncovered-verified", "Verifier.VerifyExchange", "exchange %q of bundle %c verified although uncovered", u, 'A'+it.w)
+				case r != nil:
+					if !bytes.Equal(r.VerifiedPayload, vo.body) || !bytes.Equal(r.Authority.Cert.Raw, w.signers[vo.signer].leaf.DER) {
+						c.Violation("accepted-altered-content", "Verifier.VerifyExchange", "exchange %q of bundle %c: wrong payload or authority under schedule %s", u, 'A'+it.w, sched)
+					}
+					helds = append(helds, held{r.VerifiedPayload, append([]byte(nil), r.VerifiedPayload...), u})
+				}
+			}
+			if c.Oracle("C06") {
+				for _, h := range helds {
+					if !bytes.Equal(h.got, h.want) {
+						c.Violation("result-changed-later", "Verifier.VerifyExchange", "the verified payload returned for %q was modified by later calls (schedule %s)", h.url, sched)
+					}
+				}
+			}
+			c.Outcome("nt:ok")
+			c.Sig("%s", sched)
+		})
+	})
+}
